@@ -67,8 +67,12 @@ def generate():
                     last = callee.split(".")[-1]
                     if last in ("Lock", "RLock") or (last.startswith("create_") and last.endswith("_lock")):
                         target = ast.unparse(node.targets[0])
-                        kind = "mp" if ("multiprocessing" in callee or "_multiprocessing_context" in callee) else (
-                            "creator" if last.startswith("create_") else "bare")
+                        # "bare" = a plain threading lock (threading.Lock(), or Lock() imported from threading);
+                        # "creator" = through a registering creator; anything else supplies its own Lock() - a
+                        # multiprocessing context (possibly through a local alias): a process-shared lock
+                        base = callee.rsplit(".", 1)[0] if "." in callee else ""
+                        kind = "creator" if last.startswith("create_") else (
+                            "bare" if base in ("", "threading", "_thread") else "mp")
                         sites.append((fn, target, callee, kind))
         body += "/-- (file, assigned target, callee, kind) of every lock-creating assignment in loguru/ -/\n"
         body += "def lockSites : List (String × String × String × String) := [\n" + ",\n".join(
